@@ -731,7 +731,7 @@ class ExpressionEvaluator:
         except ExpressionError:
             raise
         except (TypeError, ValueError, AttributeError, KeyError, IndexError, ArithmeticError,
-                StopIteration, RecursionError, re.error) as e:
+                StopIteration, RuntimeError, re.error) as e:
             # Ill-typed or partial expressions (e.g. amount > "x", contains(5), next() on an empty
             # generator) are expression errors: callers skip the rule instead of aborting the run
             raise ExpressionError(f"Cannot evaluate expression: {type(e).__name__}: {e}")
@@ -913,7 +913,7 @@ class TransactionEvaluator:
         except ExpressionError:
             raise
         except (TypeError, ValueError, AttributeError, KeyError, IndexError, ArithmeticError,
-                StopIteration, RecursionError, re.error) as e:
+                StopIteration, RuntimeError, re.error) as e:
             # Ill-typed or partial expressions (e.g. amount > "x", contains(5), next() on an empty
             # generator) are expression errors: callers skip the rule instead of aborting the run
             raise ExpressionError(f"Cannot evaluate expression: {type(e).__name__}: {e}")
